@@ -3,6 +3,8 @@
   Property theorems about BR/Model/MR.lean at the `ℝ` instance.
 -/
 import BR.Lemmas.SO3
+import BR.Lemmas.SE3
+import Mathlib.Tactic.Module
 
 namespace BR.C01
 open BR.MR BR.Rot OrdField Scalar
@@ -268,5 +270,276 @@ example : ∃ w : V3 ℝ, (1e-6 : ℝ) ≤ norm3 w ∧ norm3 w < Real.pi := by
   · unfold norm3; show (1e-6 : ℝ) ≤ Real.sqrt _; rw [show ((1:ℝ) * 1 + 0 * 0 + 0 * 0) = 1 by ring, Real.sqrt_one]; norm_num
   · unfold norm3; show Real.sqrt _ < _; rw [show ((1:ℝ) * 1 + 0 * 0 + 0 * 0) = 1 by ring, Real.sqrt_one]
     linarith [Real.two_le_pi]
+
+
+/-! ### log6 ∘ exp6 = id below π -/
+
+namespace Log6
+open BR.Rot
+
+/-- products of polynomials in a matrix with K³ = −K -/
+theorem Kpoly_mul (K : M3 ℝ) (h3 : K * K * K = -K) (a b g0 g1 g2 : ℝ) :
+    ((1 : M3 ℝ) + a • K + b • (K * K)) * (g0 • (1 : M3 ℝ) + g1 • K + g2 • (K * K)) =
+      g0 • (1 : M3 ℝ) + (g1 + a * g0 - a * g2 - b * g1) • K + (g2 + a * g1 + b * g0 - b * g2) • (K * K) := by
+  have h4 : K * K * K * K = -(K * K) := by rw [h3]; noncomm_ring
+  simp only [add_mul, mul_add, smul_mul_assoc, mul_smul_comm, one_mul, mul_one, ← mul_assoc, h3, neg_mul, smul_neg]
+  module
+
+/-- half-angle facts behind the `1/tan(θ/2)` term of MatrixLog6 (also true at θ = π, where Lean's and Python's
+    `1/tan` both vanish) -/
+theorem cot_half (θ : ℝ) (hs : Real.sin (θ / 2) ≠ 0) :
+    (1 - Real.cos θ) * (1 / Real.tan (θ / 2)) = Real.sin θ ∧ (1 / Real.tan (θ / 2)) * Real.sin θ = 1 + Real.cos θ := by
+  have hct : 1 / Real.tan (θ / 2) = Real.cos (θ / 2) / Real.sin (θ / 2) := by
+    rw [Real.tan_eq_sin_div_cos]
+    by_cases hc : Real.cos (θ / 2) = 0
+    · simp [hc]
+    · field_simp
+  have hsin : Real.sin θ = 2 * Real.sin (θ / 2) * Real.cos (θ / 2) := by
+    have := Real.sin_two_mul (θ / 2)
+    rw [show 2 * (θ / 2) = θ by ring] at this; exact this
+  have hcos : Real.cos θ = 2 * Real.cos (θ / 2) ^ 2 - 1 := by
+    have := Real.cos_two_mul (θ / 2)
+    rw [show 2 * (θ / 2) = θ by ring] at this; exact this
+  have hsc := Real.sin_sq_add_cos_sq (θ / 2)
+  rw [hct, hsin, hcos]
+  constructor
+  · field_simp
+    have : Real.sin (θ / 2) ^ 2 = 1 - Real.cos (θ / 2) ^ 2 := by linarith
+    rw [this]; ring
+  · field_simp
+    ring
+
+/-- the `lterm` of MatrixLog6 undoes the `G` of MatrixExp6: `lterm · G = θ·I` -/
+theorem lterm_mul_G (u : V3 ℝ) (hu : u.x ^ 2 + u.y ^ 2 + u.z ^ 2 - 1 = 0) (θ : ℝ) (hθ : θ ≠ 0) (hs : Real.sin (θ / 2) ≠ 0) :
+    ((1 : M3 ℝ) + (-(θ / 2)) • hat u + ((1 / θ - 1 / Real.tan (θ / 2) / 2) * θ) • (hat u * hat u)) * Gmat (hat u) θ = θ • (1 : M3 ℝ) := by
+  unfold Gmat
+  rw [Kpoly_mul (hat u) (hat_cube u hu)]
+  obtain ⟨h1, h2⟩ := cot_half θ hs
+  set ct := 1 / Real.tan (θ / 2) with hct
+  have e1 : (1 - Real.cos θ + -(θ / 2) * θ - -(θ / 2) * (θ - Real.sin θ) - (1 / θ - ct / 2) * θ * (1 - Real.cos θ)) = 0 := by
+    have : (1 / θ - ct / 2) * θ = 1 - θ / 2 * ct := by field_simp
+    rw [this]
+    linear_combination (θ / 2) * h1
+  have e2 : (θ - Real.sin θ + -(θ / 2) * (1 - Real.cos θ) + (1 / θ - ct / 2) * θ * θ - (1 / θ - ct / 2) * θ * (θ - Real.sin θ)) = 0 := by
+    have : (1 / θ - ct / 2) * θ = 1 - θ / 2 * ct := by field_simp
+    rw [this]
+    linear_combination (-(θ / 2)) * h2
+  have e1' : (1 - Real.cos θ + -(θ / 2) * θ - -(θ / 2) * (θ - Real.sin θ) - (1 / θ - 1 / Real.tan (θ / 2) / 2) * θ * (1 - Real.cos θ)) = 0 := by
+    rw [← hct]; exact e1
+  have e2' : (θ - Real.sin θ + -(θ / 2) * (1 - Real.cos θ) + (1 / θ - 1 / Real.tan (θ / 2) / 2) * θ * θ - (1 / θ - 1 / Real.tan (θ / 2) / 2) * θ * (θ - Real.sin θ)) = 0 := by
+    rw [← hct]; exact e2
+  rw [e1', e2']
+  module
+
+end Log6
+
+theorem hat_ne_zero (w : V3 ℝ) (h : norm3 w ≠ 0) : ¬ m3IsZero (hat w) := by
+  intro hz
+  obtain ⟨x, y, z⟩ := w
+  unfold m3IsZero at hz
+  simp only [hat, ofNat_real_zero, neg_eq_zero] at hz
+  obtain ⟨_, hz1, hz2, _, _, hz3, _, _, _⟩ := hz
+  apply h
+  rw [hz1, hz2, hz3]
+  exact norm3_eq_of_sq _ 0 (le_refl 0) (by norm_num)
+
+/-- **log6 ∘ exp6 = id** for every twist whose rotation part has angle in [1e-6, π) (any translation part), and for pure
+    translations; `eq0` is the code's `np.array_equal(omgmat, zeros)` -/
+theorem log6_exp6 (eq0 : M3 ℝ → Bool) (heq0 : ∀ m, eq0 m = true ↔ m3IsZero m) (V : V6 ℝ)
+    (h : V.a = ⟨0, 0, 0⟩ ∨ ((1e-6 : ℝ) ≤ norm3 V.a ∧ norm3 V.a < Real.pi)) :
+    matrixLog6 eq0 (matrixExp6 (hat6 V)) = hat6 V := by
+  rcases h with h0 | ⟨h1, h2⟩
+  · -- pure translation
+    have hn : norm3 V.a = 0 := by rw [h0]; exact norm3_eq_of_sq _ 0 (le_refl 0) (by norm_num)
+    have hz : nearZero (norm3 V.a) := by rw [hn, nearZero_iff]; norm_num
+    rw [exp6_translating V hz]
+    unfold matrixLog6
+    have hlog : matrixLog3 (M3.one : M3 ℝ) = M3.zero := by
+      have := log3_exp3_small ⟨0, 0, 0⟩ (by
+        rw [norm3_eq_of_sq _ 0 (le_refl 0) (by norm_num)]; norm_num)
+      rw [exp3_small _ (by rw [norm3_eq_of_sq _ 0 (le_refl 0) (by norm_num), nearZero_iff]; norm_num)] at this
+      exact this
+    simp only [hlog]
+    have hzero : eq0 (M3.zero : M3 ℝ) = true := (heq0 _).2 (by unfold m3IsZero M3.zero; simp)
+    rw [if_pos hzero]
+    obtain ⟨a, b⟩ := V
+    simp only at h0
+    subst h0
+    unfold hat6 hat M3.zero
+    simp
+  · have hpos : 0 < norm3 V.a := lt_of_lt_of_le (by norm_num) h1
+    have hnz : ¬ nearZero (norm3 V.a) := not_nearZero_of_le _ h1
+    rw [exp6_rotating V hnz]
+    set θ := norm3 V.a with hθ
+    have hne : θ ≠ 0 := ne_of_gt hpos
+    have hunit := unit_of_pos V.a hpos
+    set u := V3.sdiv V.a θ with hu
+    have hK : M3.sdiv (hat V.a) θ = hat u := by rw [hu, hat_sdiv]
+    have hw : hat V.a = θ • hat u := by
+      rw [hu, hat_sdiv, sdiv_eq_smul, smul_smul]
+      have : θ * (1 / θ) = 1 := by field_simp
+      rw [this, one_smul]
+    unfold matrixLog6
+    have hlog : matrixLog3 (matrixExp3 (hat V.a)) = hat V.a := log3_exp3 V.a h1 h2
+    simp only [hlog]
+    have hnotzero : eq0 (hat V.a) = false := by
+      rcases hb : eq0 (hat V.a) with _ | _
+      · rfl
+      · exfalso
+        exact hat_ne_zero V.a (by rw [← hθ]; exact hne) ((heq0 _).1 hb)
+    rw [hnotzero]
+    simp only [Bool.false_eq_true, ↓reduceIte]
+    -- the angle recovered from the trace is θ
+    have hexp : matrixExp3 (hat V.a) = rod u (Real.sin θ) (Real.cos θ) := exp3_eq_rod V.a hnz
+    have htr := rod_trace u (Real.sin θ) (Real.cos θ) hunit
+    have hcos_lt : Real.cos θ < 1 := by
+      have := Real.cos_lt_cos_of_nonneg_of_le_pi (le_refl 0) h2.le hpos
+      simpa using this
+    have hcos_gt : -1 < Real.cos θ := by
+      have := Real.cos_lt_cos_of_nonneg_of_le_pi hpos.le (le_refl _) h2
+      simpa using this
+    simp only [ofNat_real_one, ofNat_real, acos_real, tan_real]
+    have hang : Real.arccos (safeClip ((M3.trace (matrixExp3 (hat V.a)) - 1) / 2) (-1) 1) = θ := by
+      rw [hexp]
+      have hacos : (M3.trace (rod u (Real.sin θ) (Real.cos θ)) - 1) / 2 = Real.cos θ := by rw [htr]; ring
+      rw [hacos]
+      have hclip : safeClip (Real.cos θ) (-1) 1 = Real.cos θ := by
+        unfold safeClip smin smax
+        rw [if_neg (not_lt.mpr hcos_gt.le), if_pos hcos_lt]
+      rw [hclip]
+      exact Real.arccos_cos hpos.le h2.le
+    rw [hang]
+    have hs : Real.sin (θ / 2) ≠ 0 := by
+      apply ne_of_gt
+      apply Real.sin_pos_of_pos_of_lt_pi <;> linarith [Real.pi_pos]
+    have hlg := Log6.lterm_mul_G u hunit θ hne hs
+    -- the code's lterm is the polynomial of the lemma
+    have hlterm : (M3.one - M3.sdiv (hat V.a) 2 + M3.sdiv (M3.smul (1 / θ - 1 / Real.tan (θ / 2) / 2) (hat V.a * hat V.a)) θ : M3 ℝ) =
+        (1 : M3 ℝ) + (-(θ / 2)) • hat u + ((1 / θ - 1 / Real.tan (θ / 2) / 2) * θ) • (hat u * hat u) := by
+      rw [hw, M3.one_eq, sdiv_eq_smul, sdiv_eq_smul, M3.smul_eq]
+      simp only [smul_mul_assoc, mul_smul_comm, smul_smul]
+      have e1 : (1 / 2 : ℝ) * θ = θ / 2 := by ring
+      have e2 : 1 / θ * ((1 / θ - 1 / Real.tan (θ / 2) / 2) * (θ * θ)) = (1 / θ - 1 / Real.tan (θ / 2) / 2) * θ := by
+        field_simp
+      rw [e1, e2]
+      module
+    rw [hlterm]
+    show (⟨hat V.a, _⟩ : T4 ℝ) = hat6 V
+    unfold hat6
+    congr 1
+    rw [hK, V3.sdiv_eq_smul, mulVec_smul, ← mulVec_mul, hlg, smul_mulVec, one_mulVec, smul_smul]
+    have : 1 / θ * θ = 1 := by field_simp
+    rw [this, one_smul]
+
+/-- the hypothesis of `log6_exp6` is met by a quarter turn about z with a translation -/
+example : (1e-6 : ℝ) ≤ norm3 (⟨0, 0, 1⟩ : V3 ℝ) ∧ norm3 (⟨0, 0, 1⟩ : V3 ℝ) < Real.pi := by
+  have : norm3 (⟨0, 0, 1⟩ : V3 ℝ) = 1 := norm3_eq_of_sq _ 1 (by norm_num) (by norm_num)
+  rw [this]; constructor <;> [norm_num; linarith [Real.two_le_pi]]
+
+/-! ### exp6 ∘ log6 = id below π -/
+
+namespace Log6
+open BR.Rot
+
+/-- the same product with the factors exchanged (polynomials in K commute) -/
+theorem Kpoly_mul' (K : M3 ℝ) (h3 : K * K * K = -K) (a b g0 g1 g2 : ℝ) :
+    (g0 • (1 : M3 ℝ) + g1 • K + g2 • (K * K)) * ((1 : M3 ℝ) + a • K + b • (K * K)) =
+      g0 • (1 : M3 ℝ) + (g1 + a * g0 - a * g2 - b * g1) • K + (g2 + a * g1 + b * g0 - b * g2) • (K * K) := by
+  simp only [add_mul, mul_add, smul_mul_assoc, mul_smul_comm, one_mul, mul_one, ← mul_assoc, h3, neg_mul, smul_neg]
+  module
+
+theorem G_mul_lterm (u : V3 ℝ) (hu : u.x ^ 2 + u.y ^ 2 + u.z ^ 2 - 1 = 0) (θ : ℝ) (hθ : θ ≠ 0) (hs : Real.sin (θ / 2) ≠ 0) :
+    Gmat (hat u) θ * ((1 : M3 ℝ) + (-(θ / 2)) • hat u + ((1 / θ - 1 / Real.tan (θ / 2) / 2) * θ) • (hat u * hat u)) = θ • (1 : M3 ℝ) := by
+  have h := lterm_mul_G u hu θ hθ hs
+  unfold Gmat at h ⊢
+  rw [Kpoly_mul (hat u) (hat_cube u hu)] at h
+  rw [Kpoly_mul' (hat u) (hat_cube u hu)]
+  exact h
+
+end Log6
+
+/-- **exp6 ∘ log6 = id** for every rigid transform whose rotation angle is 0 or lies in [1e-6, π)
+    (the half-turn branch, angle exactly π, is decided on the implementation only) -/
+theorem exp6_log6_below_pi (eq0 : M3 ℝ → Bool) (heq0 : ∀ m, eq0 m = true ↔ m3IsZero m) (T : T4 ℝ) (hR : IsRot T.R)
+    (h : 1 ≤ (T.R.trace - 1) / 2 ∨ (-1 < (T.R.trace - 1) / 2 ∧ (1e-6 : ℝ) ≤ Real.arccos ((T.R.trace - 1) / 2))) :
+    matrixExp6 (matrixLog6 eq0 T) = T := by
+  obtain ⟨R, p⟩ := T
+  simp only at hR h
+  rcases h with h1 | ⟨hlo, hθ⟩
+  · -- identity rotation
+    have hR1 : R = M3.one := by
+      obtain ⟨a, b, c, d, e, f, g, h', i⟩ := R
+      have F := facts_of_isRot hR
+      have htr : (M3.trace (⟨a, b, c, d, e, f, g, h', i⟩ : M3 ℝ)) = a + e + i := by m3simp
+      rw [htr] at h1
+      exact eq_one_of_trace_ge F (by linarith)
+    subst hR1
+    have hlog : matrixLog3 (M3.one : M3 ℝ) = M3.zero := by
+      unfold matrixLog3
+      have : (M3.trace (M3.one : M3 ℝ) - 1) / 2 = 1 := by m3simp; norm_num
+      simp only [ofNat_real_one, ofNat_real] at this ⊢
+      rw [this, if_pos (le_refl _)]
+    unfold matrixLog6
+    simp only [hlog]
+    rw [if_pos ((heq0 _).2 (by unfold m3IsZero M3.zero; simp))]
+    have : (⟨M3.zero, p⟩ : T4 ℝ) = hat6 ⟨⟨0, 0, 0⟩, p⟩ := by
+      unfold hat6 hat M3.zero; simp
+    rw [this, exp6_translating]
+    rw [nearZero_iff, norm3_eq_of_sq _ 0 (le_refl 0) (by norm_num)]; norm_num
+  · have hhi : (R.trace - 1) / 2 < 1 := by
+      by_contra hc
+      have : Real.arccos ((R.trace - 1) / 2) = 0 := Real.arccos_eq_zero.2 (not_lt.mp hc)
+      rw [this] at hθ; norm_num at hθ
+    obtain ⟨w, hw, hnorm, hpos, hlt, hrod⟩ := log3_generic_form R hR hlo hhi
+    set θ := Real.arccos ((R.trace - 1) / 2) with hθdef
+    have hne : θ ≠ 0 := ne_of_gt hpos
+    have hnz : ¬ nearZero (norm3 w) := by rw [hnorm]; exact not_nearZero_of_le _ hθ
+    have hunit := unit_of_pos w (by rw [hnorm]; exact hpos)
+    have hexp : matrixExp3 (hat w) = R := by
+      have := exp3_log3_generic R hR hlo hhi hθ
+      rw [hw] at this; exact this
+    unfold matrixLog6
+    simp only [hw]
+    have hnotzero : eq0 (hat w) = false := by
+      rcases hb : eq0 (hat w) with _ | _
+      · rfl
+      · exfalso
+        exact hat_ne_zero w (by rw [hnorm]; exact hne) ((heq0 _).1 hb)
+    rw [hnotzero]
+    simp only [Bool.false_eq_true, ↓reduceIte]
+    simp only [ofNat_real_one, ofNat_real, acos_real, tan_real]
+    have hclip : safeClip ((R.trace - 1) / 2) (-1) 1 = (R.trace - 1) / 2 := by
+      unfold safeClip smin smax
+      rw [if_neg (not_lt.mpr hlo.le), if_pos hhi]
+    rw [hclip, ← hθdef]
+    set u := V3.sdiv w (norm3 w) with hu
+    have hK : M3.sdiv (hat w) θ = hat u := by rw [hu, hnorm, hat_sdiv]
+    have hwu : hat w = θ • hat u := by
+      rw [hu, hnorm, hat_sdiv, sdiv_eq_smul, smul_smul]
+      have : θ * (1 / θ) = 1 := by field_simp
+      rw [this, one_smul]
+    have hs : Real.sin (θ / 2) ≠ 0 := by
+      apply ne_of_gt
+      apply Real.sin_pos_of_pos_of_lt_pi <;> linarith [Real.pi_pos]
+    have hgl := Log6.G_mul_lterm u hunit θ hne hs
+    have hlterm : (M3.one - M3.sdiv (hat w) 2 + M3.sdiv (M3.smul (1 / θ - 1 / Real.tan (θ / 2) / 2) (hat w * hat w)) θ : M3 ℝ) =
+        (1 : M3 ℝ) + (-(θ / 2)) • hat u + ((1 / θ - 1 / Real.tan (θ / 2) / 2) * θ) • (hat u * hat u) := by
+      rw [hwu, M3.one_eq, sdiv_eq_smul, sdiv_eq_smul, M3.smul_eq]
+      simp only [smul_mul_assoc, mul_smul_comm, smul_smul]
+      have e1 : (1 / 2 : ℝ) * θ = θ / 2 := by ring
+      have e2 : 1 / θ * ((1 / θ - 1 / Real.tan (θ / 2) / 2) * (θ * θ)) = (1 / θ - 1 / Real.tan (θ / 2) / 2) * θ := by
+        field_simp
+      rw [e1, e2]
+      module
+    rw [hlterm]
+    have hform : (⟨hat w, ((1 : M3 ℝ) + (-(θ / 2)) • hat u + ((1 / θ - 1 / Real.tan (θ / 2) / 2) * θ) • (hat u * hat u)).mulVec p⟩ : T4 ℝ) =
+        hat6 ⟨w, ((1 : M3 ℝ) + (-(θ / 2)) • hat u + ((1 / θ - 1 / Real.tan (θ / 2) / 2) * θ) • (hat u * hat u)).mulVec p⟩ := rfl
+    rw [hform, exp6_rotating _ hnz]
+    simp only
+    rw [hexp, hnorm, hK]
+    congr 1
+    rw [← mulVec_mul, hgl, V3.sdiv_eq_smul, smul_mulVec, one_mulVec, smul_smul]
+    have : 1 / θ * θ = 1 := by field_simp
+    rw [this, one_smul]
 
 end BR.C01
